@@ -1,2 +1,185 @@
-(* Model/Mash.v — executable model; no proofs here. *)
+(* Model/Mash.v — package mash (mash.go) over gostuff's minhash.MinHash[uint64]
+   (minhash/minhash.go of github.com/fluhus/gostuff v1.0.1) and sequtil's
+   CanonicalSubsequences (Model/Seq.v [canon]).  No proofs here.
+
+   The hash function (murmur3.Sum64WithSeed with mash.Seed) is abstract: a
+   Section variable [h : bytes -> option N]; [None] means "the harness did not
+   supply the value" and makes the model answer Panic, so that a gap in the
+   table of a correspondence case is visible.  The theorems instantiate it
+   with [fun b => Some (h b)] for an arbitrary total [h].
+
+   A MinHash is modelled by its capacity and the values it holds as a strictly
+   descending list (what View() returns after Sort()).  Inside gostuff the
+   values live in a max-heap next to a set; which array layout the heap has
+   between two calls of Sort is gostuff's business and is not observable
+   through Sequences / Add / View-after-Sort / Jaccard: Push only asks the heap
+   for its length, its maximum (Head), Pop of the maximum and Push, and Add
+   always ends with Sort. *)
 From Bio Require Import Base.
+From Bio.Model Require Import Seq.
+
+Record minhash : Type := { mh_k : Z; mh_vals : list N }.
+
+(* minhash.New: panics for k < 1 *)
+Definition mh_new (n : Z) : outcome minhash :=
+  if (n <? 1)%Z then Panic else Ok {| mh_k := n; mh_vals := [] |}.
+
+(* heap Push followed (eventually) by Sort, for a value that is not present *)
+Fixpoint insert_desc (x : N) (l : list N) : list N :=
+  match l with
+  | [] => [x]
+  | y :: r => if y <? x then x :: l else y :: insert_desc x r
+  end.
+
+(* MinHash.Push (the returned bool and the call counter n are not observable
+   through package mash):
+     if h.Len() == k && x >= h.Head() { return }      -- too large
+     if s.Has(x) { return }
+     if h.Len() == k { s.Remove(h.Pop()) }
+     h.Push(x); s.Add(x)                                                     *)
+Definition push (n : Z) (x : N) (l : list N) : outcome (list N) :=
+  if (Z.of_nat (length l) =? n)%Z then
+    match l with
+    | [] => Panic              (* Head() of an empty heap; needs k = 0, which New refuses *)
+    | hd :: tl =>
+      if hd <=? x then Ok l
+      else if memb x l then Ok l
+      else Ok (insert_desc x tl)
+    end
+  else if memb x l then Ok l
+  else Ok (insert_desc x l).
+
+(* slices.IsSortedFunc(a, snm.CompareReverse): no a[i-1] < a[i] *)
+Fixpoint sorted_desc (l : list N) : bool :=
+  match l with
+  | x :: r => match r with
+              | y :: _ => negb (x <? y) && sorted_desc r
+              | [] => true
+              end
+  | [] => true
+  end.
+
+(* The loop of minhash.intersect.  The Go code walks both descending slices
+   from their END (i, j start at len-1 and go down): [ra], [rb] are the
+   unvisited prefixes a[0..i], b[0..j] reversed, i.e. ascending with the
+   element under the pointer first.
+     for ; i >= 0 && j >= 0 && m < k; m++ {
+       if a[i] > b[j] { j-- } else if a[i] < b[j] { i-- } else { intersection++; i--; j-- } }
+   Every round removes an element of [ra] or [rb]: fuel |a|+|b| suffices.   *)
+Fixpoint isect_loop (fuel : nat) (k : Z) (ra rb : list N) (m inter : Z)
+  : outcome (list N * list N * Z * Z) :=
+  match ra, rb with
+  | x :: ra', y :: rb' =>
+    if (m <? k)%Z then
+      match fuel with
+      | O => Panic
+      | S f =>
+        if y <? x then isect_loop f k ra rb' (m + 1)%Z inter
+        else if x <? y then isect_loop f k ra' rb (m + 1)%Z inter
+        else isect_loop f k ra' rb' (m + 1)%Z (inter + 1)%Z
+      end
+    else Ok (ra, rb, m, inter)
+  | _, _ => Ok (ra, rb, m, inter)
+  end.
+
+(* minhash.intersect of a receiver with capacity k holding a, and another
+   collection holding b:  (intersection, union := min(k, m+len(a)-i+len(b)-j)),
+   where i, j are the final pointers (length of the unvisited part minus 1). *)
+Definition intersect (a b : list N) (k : Z) : outcome (Z * Z) :=
+  if negb (sorted_desc a) then Panic          (* "receiver is not sorted" *)
+  else if negb (sorted_desc b) then Panic     (* "other is not sorted" *)
+  else
+    match isect_loop (length a + length b) k (rev a) (rev b) 0%Z 0%Z with
+    | Ok (ra, rb, m, inter) =>
+      let i := (Z.of_nat (length ra) - 1)%Z in
+      let j := (Z.of_nat (length rb) - 1)%Z in
+      Ok (inter, Z.min k (m + Z.of_nat (length a) - i + Z.of_nat (length b) - j))
+    | _ => Panic
+    end.
+
+(* mh.Jaccard(other) = float64(i)/float64(u): the model returns the pair; the
+   float64 division is looked up in a table supplied with the case. *)
+Definition jaccard_pair (mh other : minhash) : outcome (Z * Z) :=
+  intersect (mh_vals mh) (mh_vals other) (mh_k mh).
+
+Definition pair_lookup {B} (i u : Z) (t : list ((Z * Z) * B)) : option B :=
+  match find (fun e => (fst (fst e) =? i)%Z && (snd (fst e) =? u)%Z) t with
+  | Some e => Some (snd e)
+  | None => None
+  end.
+
+Definition jaccard (divtab : list ((Z * Z) * F)) (mh other : minhash) : outcome F :=
+  match jaccard_pair mh other with
+  | Ok (i, u) => match pair_lookup i u divtab with Some f => Ok f | None => Panic end
+  | _ => Panic
+  end.
+
+Section Hash.
+Variable h : bytes -> option N.
+
+(* h.Reset(); h.Write(b); mh.Push(h.Sum64()) *)
+Definition push_kmer (n : Z) (acc : outcome (list N)) (b : bytes) : outcome (list N) :=
+  obind acc (fun l => match h b with Some x => push n x l | None => Panic end).
+
+(* for b := range sequtil.CanonicalSubsequences(bytes.ToUpper(seq), k) { ... }
+   bytes.ToUpper: on ASCII input a..z -> A..Z ([upper_byte]).  On input with a
+   byte >= 128 it decodes UTF-8 and maps runes; whatever it produces contains a
+   byte outside aAcCgGtTnN (a byte >= 128, or 'I' / 'S' for U+0131 / U+017F,
+   the only non-ASCII runes whose upper case is ASCII), so ReverseComplement
+   panics.  [upper_byte] leaves bytes >= 128 alone and [canon] panics on them:
+   same outcome. *)
+Definition add_seq (n : Z) (k : Z) (acc : outcome (list N)) (s : bytes) : outcome (list N) :=
+  obind acc (fun l =>
+    match canon (map upper_byte s) k with
+    | Ok ks => fold_left (push_kmer n) ks (Ok l)
+    | _ => Panic
+    end).
+
+(* mash.Add: all sequences, then mh.Sort() (the identity on the sorted list) *)
+Definition add (mh : minhash) (k : Z) (seqs : list bytes) : outcome minhash :=
+  match fold_left (add_seq (mh_k mh) k) seqs (Ok (mh_vals mh)) with
+  | Ok l => Ok {| mh_k := mh_k mh; mh_vals := l |}
+  | _ => Panic
+  end.
+
+(* mash.Sequences *)
+Definition sequences_mh (n k : Z) (seqs : list bytes) : outcome minhash :=
+  obind (mh_new n) (fun mh => add mh k seqs).
+
+(* Sequences(n,k,seqs...).View() *)
+Definition sequences (n k : Z) (seqs : list bytes) : outcome (list N) :=
+  obind (sequences_mh n k seqs) (fun mh => Ok (mh_vals mh)).
+
+(* Sequences on the first batch, then one Add per further batch; View() *)
+Definition add_batches (mh : minhash) (k : Z) (batches : list (list bytes)) : outcome minhash :=
+  fold_left (fun acc b => obind acc (fun m => add m k b)) batches (Ok mh).
+
+Definition incremental (n k : Z) (batches : list (list bytes)) : outcome (list N) :=
+  match batches with
+  | [] => Panic
+  | b :: rest =>
+    obind (sequences_mh n k b) (fun mh =>
+    obind (add_batches mh k rest) (fun mh' => Ok (mh_vals mh')))
+  end.
+
+(* mh1 := Sequences(nA,k,seqsA); mh2 := Sequences(nB,k,seqsB); mh1.Jaccard(mh2) *)
+Definition sketch_jaccard_pair (nA nB k : Z) (seqsA seqsB : list bytes) : outcome (Z * Z) :=
+  obind (sequences_mh nA k seqsA) (fun a =>
+  obind (sequences_mh nB k seqsB) (fun b => jaccard_pair a b)).
+
+Definition sketch_jaccard (divtab : list ((Z * Z) * F)) (nA nB k : Z) (seqsA seqsB : list bytes) : outcome F :=
+  obind (sequences_mh nA k seqsA) (fun a =>
+  obind (sequences_mh nB k seqsB) (fun b => jaccard divtab a b)).
+
+End Hash.
+
+(* The canonical upper-cased k-mers of all sequences, in iteration order. *)
+Fixpoint kmers (k : Z) (seqs : list bytes) : outcome (list bytes) :=
+  match seqs with
+  | [] => Ok []
+  | s :: r =>
+    match canon (map upper_byte s) k, kmers k r with
+    | Ok a, Ok b => Ok (a ++ b)
+    | _, _ => Panic
+    end
+  end.
